@@ -243,6 +243,7 @@ class Interp:
         self.clock = None          # installed by drivers that model time
         self.depth = 0
         self.hooks = {}            # function name -> python override (drivers)
+        self.drop_hook = None      # (it, frame, place, type) -> True if the drop was handled (cfa extraction: lock guards)
         self.extern = None         # callable(it, plain_name, args, dest_ty, func) -> value | NotImplemented
 
     # ------------------------------------------------------------------ types
@@ -432,9 +433,13 @@ class Interp:
         k = op[0]
         if k == "copy":
             v = self.read_place(fr, op[1])
+            if type(v) is SharedEnumV:
+                return v.snapshot()
             return clone_val(v) if isinstance(v, (Agg, Enum, Seq, MapV)) else v
         if k == "move":
             v = self.read_place(fr, op[1])
+            if type(v) is SharedEnumV:
+                return v.snapshot()
             return v
         return self.eval_const(fr, op[1])
 
@@ -601,6 +606,8 @@ class Interp:
             return self.cast(fr, rv[1], rv[2], rv[3])
         if k == "discr":
             v = self.read_place(fr, rv[1])
+            if type(v) is SharedEnumV:
+                return v.reader()
             if isinstance(v, Enum):
                 return v.idx
             if isinstance(v, (int, bool)) or is_sym(v):
@@ -871,6 +878,8 @@ class Interp:
     def drop_place(self, fr, place):
         ty = self.place_type(fr.body, place)
         base = strip_generics(ty)
+        if self.drop_hook is not None and self.drop_hook(self, fr, place, base):
+            return
         if "::" in base and not base.startswith(("std::", "core::", "alloc::", "bytes::", "&")):
             fn = self.prog.resolve_method("", base, "drop", "Drop")
             if fn is not None:
